@@ -750,6 +750,14 @@ func runTermCase(c TCase) (res TRes) {
 		}
 	case "specialnf":
 		runSpecialNF(c, cnt)
+	case "svdprobe":
+		st, det := svdHangState(c, c.Cap)
+		res.Msg = st + " " + det
+		if len(res.Msg) > 400 {
+			res.Msg = res.Msg[:400]
+		}
+		res.Outcome = "returned"
+		return res
 	case "blahut":
 		ch := ad.NullDenseFloat64Matrix(c.N, c.N)
 		if c.Family == "uniform" {
@@ -825,6 +833,35 @@ func runTermParent(opts Opts, cases []TCase, outName string) {
 			}
 			r.Case = c
 			r.Secs = math.Round(time.Since(t0).Seconds()*100) / 100
+			if c.Routine == "svd" && r.Outcome == "deadline" {
+				// classify the state the run spins in: deterministic fuel (Golub-Kahan steps), see svdprobe.go
+				pf := filepath.Join(opts.Out, fmt.Sprintf("%s.probe_%d.json", outName, i))
+				pc := c
+				pc.Routine = "svdprobe"
+				pc.Cap = 40000
+				pb, _ := json.Marshal([]TCase{pc})
+				os.WriteFile(pf, pb, 0644)
+				ctx2, cancel2 := context.WithTimeout(context.Background(), 20*time.Second)
+				out2, err2 := exec.CommandContext(ctx2, self, "--extra", "termchild:0", "--replay", pf).Output()
+				cancel2()
+				var pr TRes
+				state := "hangstate:no-step"
+				if err2 == nil && json.Unmarshal(out2, &pr) == nil && len(pr.Msg) > 0 {
+					state = pr.Msg
+				}
+				os.Remove(pf)
+				r.Msg = state
+				fl := state
+				for k := 0; k < len(state); k++ {
+					if state[k] == ' ' {
+						fl = state[:k]
+						break
+					}
+				}
+				cf2 := c
+				cf2.Flags = append(append([]string{}, c.Flags...), fl)
+				r.Case = cf2
+			}
 			results[i] = r
 		}(i)
 	}
